@@ -130,6 +130,7 @@ retry:
 					attempts++
 					goto retry
 				}
+				break // the policy declined: do not let a later command of the batch re-send this one
 			}
 		}
 	}
@@ -174,6 +175,7 @@ retry:
 					attempts++
 					goto retry
 				}
+				break // the policy declined: do not let a later command of the batch re-send this one
 			}
 		}
 	}
@@ -304,7 +306,7 @@ retry:
 		return fillErrs(len(multi), err)
 	}
 	resp = c.wire.DoMulti(ctx, multi...).s
-	for i, cmd := range multi {
+	for i := range multi {
 		if retryable && isRetryable(resp[i].Error(), c.wire, ctx) {
 			shouldRetry := c.retryHandler.WaitOrSkipRetry(
 				ctx, attempts, multi[i], resp[i].Error(),
@@ -313,7 +315,10 @@ retry:
 				attempts++
 				goto retry
 			}
+			break // the policy declined: do not let a later command of the batch re-send this one
 		}
+	}
+	for i, cmd := range multi { // recycle only once no retry can re-send the batch anymore
 		if resp[i].NonRedisError() == nil {
 			cmds.PutCompleted(cmd)
 		}
